@@ -184,6 +184,17 @@ pub(super) mod udp {
 
         fn decode(&mut self, src: &mut BytesMut) -> Result<Option<Self::Item>, Self::Error> {
             if !src.is_empty() {
+                // wait until the whole packet (address, length, CRLF, payload) has arrived
+                let Some(addr_len) = address::try_decode_at(src, 0)? else {
+                    return Ok(None);
+                };
+                if src.remaining() < addr_len + 2 + trojan::CR_LF.len() {
+                    return Ok(None);
+                }
+                let len = u16::from_be_bytes([src[addr_len], src[addr_len + 1]]) as usize;
+                if src.remaining() < addr_len + 2 + trojan::CR_LF.len() + len {
+                    return Ok(None);
+                }
                 let addr = address::decode(src)?;
                 let len = src.get_u16();
                 src.advance(trojan::CR_LF.len());
